@@ -133,6 +133,28 @@ def rules(ps, par, k, hp, lc, dp, dc, up, oth):
     return ""
 
 
+def rules_any(ps, par, k, up, c1, c2, c3):
+    """every parent category of the table (also those with an empty priority list) and an unknown one: exactly one head"""
+    preset = PRESETS[ps]
+    table = _tables()[preset]
+    cats = sorted(table) + ["zzunknown"]
+    pcat = cats[par % len(cats)]
+    pool = ["xx", "nn", "vp", "yy"]
+    root = mknode("VROOT")
+    x = mknode(pcat.upper() if up else pcat)
+    attach(root, x)
+    for j, c in enumerate([c1, c2, c3][:k]):
+        attach(x, mkleaf("w%d" % (j + 1), pool[c].upper(), j + 1), rev=True)
+    root.data['sid'] = 1
+    out = transform.mark_heads_by_rules(root, mark_heads_preset=preset)
+    if out is not root:
+        return "did not return the root"
+    r = _check_one_head(root)
+    if r:
+        return "%s preset, parent %s: %s" % (preset, pcat, r)
+    return ""
+
+
 def reject(case):
     root = mknode("VROOT")
     attach(root, mkleaf("a", "NN", 1))
@@ -171,6 +193,14 @@ def conds(tier):
                            timeout=600 if q else 3000, functions=FUNCS[1:],
                            note="parent = every category of the preset with a non-empty rule; listed child category = "
                                 "each of the first %d listed categories" % (6 if q else 20)))
+    for ps in ([0] if q else [0, 1]):
+        ncat = len(_tables()[PRESETS[ps]]) + 1
+        cs.append(Cond("rulesany-%s" % PRESETS[ps], "harness.c15:rules_any",
+                       [P("par", "int", 0, ncat), P("k", "int", 1, 4), P("up", "bool"), P("c1", "int", 0, 4), P("c2", "int", 0, 4),
+                        P("c3", "int", 0, 2 if q else 4)],
+                       fixed={"ps": ps}, pre=["(k >= 2 or c2 == 0) and (k >= 3 or c3 == 0)"] + (["c2 <= 1 or k == 2"] if q else []),
+                       shard=["k", "up"], timeout=600 if q else 3000, functions=FUNCS[1:],
+                       note="all %d parent categories of the table plus an unknown one" % (ncat - 1)))
     cs.append(Cond("reject", "harness.c15:reject", [P("case", "int", 0, 4)], timeout=60, functions=FUNCS[1:2]))
     return cs
 
